@@ -849,6 +849,36 @@ def gen_reload_case(r):
     return c
 
 
+def gen_hugeundo_case(r, kind="pfx", n=None):
+    """an incremental response (answer to a Serial Query: the records go into the live tables one by one) with more than 2^16 PDUs of one
+    kind, followed by a PDU the client must refuse (withdrawal of an unknown record): everything applied so far has to be undone - a
+    count of applied PDUs kept in a narrow integer shows only here"""
+    c = SyncCase()
+    sess = r.randrange(65536)
+    n = n or (65536 + r.choice([0, 1, 2, 7, 300]))
+    ops = ["sock 3600 7200 600 %d" % r.choice(MODES)]
+    ops.append("pre pfx 4 %08x 8 8 65001 0" % (9 << 24))
+    ops.append("pre pfx 4 %08x 8 8 65001 1" % (8 << 24))
+    k0 = seq_key(5, 3)
+    ops.append("pre key %d %s %s 0" % (k0[0], k0[1].hex(), k0[2].hex()))
+    ops += ["set version 1", "set session %d" % sess, "set serial 1", "set reqsess 0", "set lastupdate 900", "set state 3", "set hasrecv 1"]
+    if kind == "pfx":
+        payload = [pfx_pdu(1, 1, (4, (10 << 24) | (i << 8), 24, 24, 65001)) for i in range(n)]
+    else:
+        salt = r.getrandbits(32)
+        payload = []
+        for i in range(n):
+            k = seq_key(1000 + i, salt)
+            payload.append(P.router_key(1, 1, k[1], k[0], k[2]))
+    payload.append(pfx_pdu(1, 0, (4, 77 << 24, 8, 8, 65009)))            # withdrawal of a record nobody announced
+    stream = P.cache_response(1, sess) + b"".join(payload) + P.eod(1, sess, 2)
+    ops.append("tape rx:" + stream.hex())
+    ops += ["show", "dump", "run sync", "show", "dump"]
+    c.ops = ops
+    c.meta = {"mut": "hugeundo:" + kind, "n": n, "used": ["hugeundo"], "good_tail": 0}
+    return c
+
+
 def allocfail_variant(case, k):
     """the case with the k-th allocation request of the synchronisation refused"""
     v = SyncCase()
